@@ -13,9 +13,10 @@ import Driver.RulesOps
 import Driver.GrammarOps
 import Driver.UpdateOps
 import Driver.GenerateOps
+import Driver.TestRunOps
 /-! Line-protocol driver: one operation per input line, one canonical line out. -/
 namespace Driver
-open Driver.CramOps Driver.MarkdownOps Driver.EscOps Driver.RulesOps Driver.YamlOps Driver.TplOps Driver.PrettyOps Driver.GrammarOps Driver.UpdateOps Driver.GenerateOps
+open Driver.CramOps Driver.MarkdownOps Driver.EscOps Driver.RulesOps Driver.YamlOps Driver.TplOps Driver.PrettyOps Driver.GrammarOps Driver.UpdateOps Driver.GenerateOps Driver.TestRunOps
 
 def step (line : String) : String :=
   match line.trimAscii.toString.splitOn " " with
@@ -66,6 +67,8 @@ def step (line : String) : String :=
   | "gen" :: args => opGen args
   | "genupd" :: args => opGenUpd args
   | "noop" :: args => opNoop args
+  | "testdoc" :: args => opTestDoc args
+  | "lossy" :: args => opLossy args
   | _ => "bad-op"
 
 partial def loop (h : IO.FS.Stream) (out : IO.FS.Stream) : IO Unit := do
